@@ -146,6 +146,9 @@ func RunWorker(a WorkerArgs) int {
 		rng := sim.NewRng(a.Seed, propHash, uint64(a.GenOnly))
 		c := p.Gen(rng, a.Tier)
 		c.Prop, c.Engine, c.Seed, c.Run, c.Tier, c.Tree = a.Prop, p.Engine(), a.Seed, a.GenOnly, a.Tier, a.Tree
+		if runtime.GOARCH != "amd64" {
+			c.Arch = runtime.GOARCH
+		}
 		b, _ := json.MarshalIndent(c, "", " ")
 		_ = os.WriteFile(a.Out, b, 0o644)
 		return 0
@@ -196,6 +199,9 @@ func RunWorker(a WorkerArgs) int {
 		rng := sim.NewRng(a.Seed, propHash, uint64(i))
 		c := p.Gen(rng, a.Tier)
 		c.Prop, c.Engine, c.Seed, c.Run, c.Tier, c.Tree = a.Prop, p.Engine(), a.Seed, i, a.Tier, a.Tree
+		if runtime.GOARCH != "amd64" {
+			c.Arch = runtime.GOARCH
+		}
 		if progress != nil {
 			var buf [8]byte
 			binary.LittleEndian.PutUint64(buf[:], uint64(i))
